@@ -1,7 +1,24 @@
 import Lace.Props.C11
+import Lace.Props.C11Trace
+import Lace.Props.C11Demo
 #print axioms Lace.C11.bp_sorted_nodup
 #print axioms Lace.C11.bp_pause_before_exec
 #print axioms Lace.C11.exec_rearms
 #print axioms Lace.C11.no_bp_no_pause
 #print axioms Lace.C11.runCommand_bps
 #print axioms Lace.C11.armed_iteration_reads
+#print axioms Lace.C11.bp_pause_before_exec_trace
+#print axioms Lace.C11.bp_pause_before_exec_from
+#print axioms Lace.C11.iter_bp_exec_reads
+#print axioms Lace.C11.iter_fresh
+#print axioms Lace.C11.bp_removed_never_pauses_trace
+#print axioms Lace.C11.bp_line_only_at_breakpoint_trace
+#print axioms Lace.C11.no_bp_runs_on_trace
+#print axioms Lace.C11.bp_exec_preceded_by_resume
+#print axioms Lace.C11.bp_fires_every_arrival
+#print axioms Lace.C11.break_directive_addresses
+#print axioms Lace.C11.break_directive_addresses_src
+#print axioms Lace.C11.parse_breaks
+#print axioms Lace.C11.assemble_breaks
+#print axioms Lace.C11.runLoop_execs_eq_trace
+#print axioms Lace.C11.nextReads_length
